@@ -12,10 +12,13 @@ FewIntVals == {2, 7, 9, 10, 14, 15, 21, 23, 25, 27}
 AllArgKinds == OtherArgs
 Cats1 == CatSet
 \* fixes present in the tree under test (the check looks for them in the source and tells TLC)
+SameNames == {"same"}
+AltNames == {"alt"}
+BothNames == {"same", "alt"}
 NoFix == (IF "VERIF_FIX_INTERR" \in DOMAIN IOEnv THEN {"int-error-ignored"} ELSE {})
          \cup (IF "VERIF_FIX_EXTRA" \in DOMAIN IOEnv THEN {"extra-args"} ELSE {})
 
-EvalInit == \E i \in 1..Len(Sel) : S = Sel[i].ov /\ kind = Sel[i].kind /\ done = TRUE
+EvalInit == \E i \in 1..Len(Sel) : S = Sel[i].ov /\ kind = Sel[i].kind /\ nm = Sel[i].nm /\ done = TRUE
 EvalNext == UNCHANGED vars
 EvalSpec == EvalInit /\ [][EvalNext]_vars
 
@@ -23,15 +26,17 @@ SetToSeq(A) == LET RECURSIVE F(_) F(X) == IF X = {} THEN <<>> ELSE LET x == CHOO
 
 CallRec(call, cx) ==
   LET e == Expected(S, call) IN
-  [a |-> call.a, self |-> call.self, e |-> e.k, j |-> e.j,
-   ct |-> [i \in 1..N(call) |-> ArgType(S, call, i)],
-   cpp |-> CppSelect(S, call),
+  [a |-> call.a, kw |-> call.kw, self |-> call.self, e |-> e.k, j |-> e.j,
+   \* the call normalised to positions (what the selected overload must receive), its status
+   pa |-> Norm(S, call).a, st |-> Norm(S, call).st,
+   ct |-> IF HasKw(call) THEN <<>> ELSE [i \in 1..N(call) |-> ArgType(S, Norm(S, call), i)],
+   cpp |-> IF HasKw(call) THEN 0 ELSE CppSelect(S, Norm(S, call)),
    dev |-> DevC(S, call, cx),
    m |-> PyResultsC(S, call, cx),
    \* the mechanism model (a function of the input only) does not give the reference result
    dis |-> e.k # "none" /\ \E r \in PyResultsC(S, call, cx) : ~Agree(r, e)]
 
-SetId == CHOOSE i \in 1..Len(Sel) : Sel[i].ov = S /\ Sel[i].kind = kind
+SetId == CHOOSE i \in 1..Len(Sel) : Sel[i].ov = S /\ Sel[i].kind = kind /\ Sel[i].nm = nm
 \* one short line per call (lines longer than the writer's buffer would interleave between workers)
 EvalConstraint ==
   IF DumpFile # ""
